@@ -52,6 +52,8 @@ package allocation
 //@      // ---- permissions (C01, C07). famOK mirrors RFC 6156: the peer must be of the allocation's address family.
 //@ spec func famOK(ip net.IP, fam int) bool = fam == 1 ? isV4(ip) : (fam == 2 ? (!isV4(ip) && validIP(ip)) : false)
 //@ spec func timerSet(t *time.Timer, d int) bool = t != nil && armed(t) && dur(t) == d
+//@      // every permission is filed under the key of its own peer address (so that its expiry removes itself)
+//@ spec func permKeysOK(a *Allocation) bool = forall k :: haskey(a.permissions, k) ==> ipKey(valat(a.permissions, k).Addr) == k
 //@ spec func permTimers(a *Allocation) bool = forall k :: haskey(a.permissions, k) ==> valat(a.permissions, k).lifetimeTimer != nil && valat(a.permissions, k).log != nil && valat(a.permissions, k).allocation == a
 
 //@ func NewPermission
@@ -68,6 +70,7 @@ package allocation
 //@   requires p != nil && p.allocation != nil && p.allocation.fiveTuple != nil
 //@   ensures [C01,C07:expire] !has(p.allocation.permissions, ipKey(p.Addr))
 //@   ensures [C01,C07:expire-frame] forall k :: k != ipKey(p.Addr) ==> haskey(p.allocation.permissions, k) == old(haskey(p.allocation.permissions, k))
+//@   ensures [C01,C07:expire-own] old(permKeysOK(p.allocation)) ==> forall k :: old(haskey(p.allocation.permissions, k) && valat(p.allocation.permissions, k) == p) ==> !haskey(p.allocation.permissions, k)
 
 //@ func (*Permission).refresh
 //@   requires [C18:timer-set] p.lifetimeTimer != nil
@@ -97,6 +100,8 @@ package allocation
 //@   ensures [C07:other-timers] old(has(a.permissions, ipKey(perms.Addr))) ==> forall t :: t != old(a.permissions[ipKey(perms.Addr)].lifetimeTimer) ==> dur(t) == old(dur(t)) && armed(t) == old(armed(t))
 //@   ensures [C07:other-timers-new] !old(has(a.permissions, ipKey(perms.Addr))) ==> fresh(perms.lifetimeTimer) && forall t :: t != perms.lifetimeTimer ==> dur(t) == old(dur(t)) && armed(t) == old(armed(t))
 //@   ensures allocWF(a) && permTimers(a)
+//@   ensures [C01,C07:keys] old(permKeysOK(a)) ==> permKeysOK(a)
+//@   ensures [C07:timers-disjoint] old(timersDisjoint(a)) ==> timersDisjoint(a)
 //@   assigns entries(a.permissions), perms.allocation, perms.lifetimeTimer, timers
 
 //@      // ---- channel bindings (C07, C08). chanInv is the one-to-one invariant of the property.
@@ -164,6 +169,7 @@ package allocation
 //@   ensures [C07:chan-timer-refresh] res == nil && old(chanNumsUnique(a)) ==> forall i :: 0 <= i && i < len(a.channelBindings) && a.channelBindings[i].Number == chanBind.Number ==> timerSet(a.channelBindings[i].lifetimeTimer, channelLifetime)
 //@   ensures [C07:perm-timer] res == nil ==> has(a.permissions, ipKey(chanBind.Peer)) && timerSet(a.permissions[ipKey(chanBind.Peer)].lifetimeTimer, permissionLifetime)
 //@   ensures allocWF(a) && permTimers(a) && chanTimers(a) && timersDisjoint(a) && chansWF(a) && chanPeersNonNil(a)
+//@   ensures [C01,C07:keys] old(permKeysOK(a)) ==> permKeysOK(a)
 //@   assigns a.channelBindings, mem(a.channelBindings), chanBind.allocation, chanBind.lifetimeTimer, entries(a.permissions), timers
 
 //@      // ---- 5-tuple identity (C04): the fingerprint is the 16-byte form of both IPs, both ports (mod 2^16) and the protocol
